@@ -549,11 +549,86 @@ fn scenario(s: Scn) -> ScenarioOut {
     out
 }
 
+
+/// Directed scenarios for ticks that are not a whole number of milliseconds ("for all tick
+/// durations"): a fixed-latency link, stamped datagrams, the same window as everywhere else.
+fn fractional_tick_scenario(tick_us: u64) -> ScenarioOut {
+    use std::cell::RefCell;
+    use std::rc::Rc;
+    let mut out = ScenarioOut::default();
+    let lat_ms = 10u64;
+    rec::set_step(0);
+    let mut b = turmoil::Builder::new();
+    b.tick_duration(Duration::from_micros(tick_us))
+        .epoch(epoch(0))
+        .rng_seed(tick_us)
+        .min_message_latency(Duration::from_millis(lat_ms))
+        .max_message_latency(Duration::from_millis(lat_ms))
+        .simulation_duration(Duration::from_secs(1000));
+    let mut sim = b.build();
+    let delays: Rc<RefCell<Vec<i128>>> = Rc::new(RefCell::new(vec![]));
+    let d2 = delays.clone();
+    sim.host("rx", move || {
+        let d2 = d2.clone();
+        async move {
+            let s = UdpSocket::bind(("0.0.0.0", 9000)).await?;
+            let mut b = [0u8; 16];
+            loop {
+                if let Ok((8, _)) = s.recv_from(&mut b).await {
+                    let sent = u64::from_le_bytes(b[..8].try_into().unwrap()) as i128;
+                    let now = ns(turmoil::sim_elapsed().unwrap()) as i128;
+                    d2.borrow_mut().push(now - sent);
+                }
+            }
+        }
+    });
+    sim.client("tx", async move {
+        let s = UdpSocket::bind(("0.0.0.0", 9001)).await?;
+        tokio::time::sleep(Duration::from_millis(3)).await;
+        for _ in 0..12 {
+            let t = ns(turmoil::sim_elapsed().unwrap());
+            s.send_to(&t.to_le_bytes(), ("rx", 9000)).await?;
+            tokio::time::sleep(Duration::from_millis(2)).await;
+        }
+        tokio::time::sleep(Duration::from_millis(3 * lat_ms)).await;
+        Ok(())
+    });
+    let r = sim.run();
+    drop(sim);
+    let desc = json!({"family": "fractional-tick", "tick_us": tick_us, "latency_ms": lat_ms});
+    if let Err(e) = r {
+        out.discarded = Some(format!("run failed: {e}"));
+        return out;
+    }
+    let tick_ns = tick_us as i128 * 1000;
+    let (lo, hi) = (lat_ms as i128 * 1_000_000 - tick_ns, lat_ms as i128 * 1_000_000 + tick_ns);
+    let ds = delays.borrow().clone();
+    out.count("fractional_tick_messages_measured", ds.len() as u64);
+    out.saw("fractional_ticks_us", tick_us.to_string());
+    let bad: Vec<i128> = ds.iter().copied().filter(|d| *d < lo || *d > hi).collect();
+    if !bad.is_empty() || ds.len() != 12 {
+        out.violate(
+            "latency-window",
+            format!("C14|latency-window|tick_us={tick_us}|"),
+            format!("tick {tick_us} us, fixed latency {lat_ms} ms: {} of {} datagrams arrived, delays in virtual time (ns) outside [{lo}, {hi}]: {:?}", ds.len(), 12, vcore::excerpt(&bad, 4)),
+            desc.clone(),
+        );
+    }
+    out.digest = vcore::digest_str(&format!("frac{tick_us}{ds:?}"));
+    out.nontrivial = ds.len() >= 10;
+    out.sample = Some(desc);
+    out
+}
+
 pub fn run(ctx: &Ctx) -> ! {
     if ctx.replay.is_some() {
         let w = vcore::read_replay(ctx).expect("replay file");
-        let seed = w["scenario_seed"].as_u64().unwrap_or(0);
-        let report = vcore::run_single(ctx, move |_| scenario(gen(seed)));
+        let report = if let Some(t) = w.get("tick_us").and_then(|x| x.as_u64()) {
+            vcore::run_single(ctx, move |_| fractional_tick_scenario(t))
+        } else {
+            let seed = w["scenario_seed"].as_u64().unwrap_or(0);
+            vcore::run_single(ctx, move |_| scenario(gen(seed)))
+        };
         vcore::finish(ctx, report, fin());
     }
     let n = ctx.pick(60_000, 1_000_000);
@@ -566,6 +641,11 @@ pub fn run(ctx: &Ctx) -> ! {
             scenario_timeout_s: 120.0,
         },
         move |idx| {
+            // the first scenarios are directed: ticks that are not whole milliseconds, and one that is
+            const FRACTIONAL: [u64; 5] = [500, 1500, 2500, 100, 2000];
+            if (idx as usize) < FRACTIONAL.len() {
+                return fractional_tick_scenario(FRACTIONAL[idx as usize]);
+            }
             let seed = c2.scenario_seed("c14", idx);
             let mut out = scenario(gen(seed));
             for v in out.violations.iter_mut() {
@@ -580,13 +660,13 @@ pub fn run(ctx: &Ctx) -> ! {
 fn fin() -> Finish<'static> {
     Finish {
         level: "exploration",
-        rule: "seeded scenarios: tick in {1,2,5,10,50 ms}, global min/max latency and curve, 2-4 hosts, 1-5 UDP/TCP flows sending stamped bursts at ms-granular instants inside steps, 0-5 latency setter calls (global max, curve, per-link fixed / max by name, IP, regex) between steps; non-trivial = >=20 measured messages and >=1 setter call; distinct = digest of (setters, all receipts with virtual times)",
+        rule: "five directed scenarios with ticks of 0.1 / 0.5 / 1.5 / 2 / 2.5 ms on a fixed 10 ms link, then seeded scenarios: tick in {1,2,5,10,50 ms}, global min/max latency and curve, 2-4 hosts, 1-5 UDP/TCP flows sending stamped bursts at ms-granular instants inside steps, 0-5 latency setter calls (global max, curve, per-link fixed / max by name, IP, regex) between steps; non-trivial = >=20 measured messages and >=1 setter call; distinct = digest of (setters, all receipts with virtual times)",
         assumptions: vec![
             "receivers are parked in recv for the whole run, so receipt time = delivery turn".into(),
             "max < min configurations are never generated (documented panic)".into(),
             "fail_rate = 0 (healthy links)".into(),
         ],
         min_distinct: 50,
-        required_counters: vec!["messages_measured", "messages_under_link_override", "messages_under_fixed_latency", "tcp_messages", "udp_messages"],
+        required_counters: vec!["messages_measured", "messages_under_link_override", "messages_under_fixed_latency", "tcp_messages", "udp_messages", "fractional_tick_messages_measured"],
     }
 }
